@@ -12,7 +12,7 @@
      -2..2, r = rn/rd, and the layout of the index file are all derived from the seed
      by two multiplicative congruential generators (moduli < 2^15.5 so that every
      product stays below 2^31).  The expectation is computed by the Lsq operators only. *)
-EXTENDS Lsq, Json
+EXTENDS Lsq, LsqRand, Json
 
 CONSTANTS Kinds,      \* subset of {"tik", "con", "xt", "xc"}
           Seed0, NSeeds,
@@ -22,18 +22,6 @@ CONSTANTS Kinds,      \* subset of {"tik", "con", "xt", "xc"}
 
 VARIABLES ph, sys
 vars == <<ph, sys>>
-
-(* ------------------------------ pseudo-random stream --------------------------- *)
-P1 == 46337      \* primes below 2^15.5 and primitive roots
-G1 == 20001
-P2 == 46327
-G2 == 20005
-RECURSIVE GenFrom(_, _, _)
-GenFrom(x, y, k) == IF k = 0 THEN <<>> ELSE <<x + y>> \o GenFrom((x * G1) % P1, (y * G2) % P2, k - 1)
-StreamLen == 64
-Stream(s) == GenFrom(1 + ((((s % 40000) * 7) + 13) % (P1 - 1)),
-                     1 + (((((s \div 3) % 40000) * 11) + ((s % 3) * 5) + 5) % (P2 - 1)), StreamLen)
-Draw(R, k, lo, hi) == lo + (R[k + 1] % (hi - lo + 1))     \* R[1] is still linear in the seed
 
 (* ------------------------------ index-file layouts ----------------------------- *)
 \* contiguous groups: cut after position i (1 <= i < n) iff cut[i]; a group lo..hi is written
